@@ -104,6 +104,7 @@ static void t_build_contents(void)
 /* create all directories of the shape; nothing else exists afterwards */
 static void t_setup_dirs(void)
 {
+  for (int l = 0; l < ts.nlayers; l++) mc_rmtree(ts.layer_dir[l]);   /* a shape may be set up again (next deviation bound) */
   for (int l = 0; l < ts.nlayers; l++) {
     t_mkdirs(ts.layer_dir[l]);
     for (int c = 0; c < ts.ncd; c++) { char p[700]; snprintf(p, sizeof p, "%s/%s%s", ts.layer_dir[l], ts.name, ts.cd[c]); t_mkdirs(p); }
